@@ -357,6 +357,8 @@ impl GenericHardwareSource {
             related_source_id: 0xffff.into(),
             _flags: 0,
             enabled: enabled as u8,
+            // A well-formed (polled) notification structure until the caller sets one.
+            notification: NotificationStructure::new(NotificationType::Polled),
             ..Default::default()
         }
     }
@@ -575,6 +577,8 @@ impl GenericHardwareSourceV2 {
             related_source_id: 0xffff.into(),
             _flags: 0,
             enabled: enabled as u8,
+            // A well-formed (polled) notification structure until the caller sets one.
+            notification: NotificationStructure::new(NotificationType::Polled),
             ..Default::default()
         }
     }
